@@ -390,6 +390,55 @@ pub fn simd_windows(ctx: &Ctx, mode: &Mode, stats: &Stats, maxlen: usize) -> u64
     total.load(Ordering::Relaxed)
 }
 
+/// Long single runs through every run-consuming state (the shapes of the C04 scale grid) at lengths on
+/// and next to powers of two, one piece and cut in the middle: tokens and lines against R-tok.
+pub fn long_runs(ctx: &Ctx, mode: &Mode, stats: &Stats, only: Option<(&str, usize, usize)>) -> u64 {
+    let sizes: Vec<usize> = if ctx.tier == Tier::Thorough { vec![255, 256, 257, 4095, 4096, 4097, 65535, 65536, 65537, 262144, 1048577] } else { vec![255, 256, 257, 4096, 4097, 65537] };
+    let mut tasks: Vec<(&'static str, usize, usize)> = vec![];
+    for sh in crate::c04::RUN_SHAPES {
+        for &n in &sizes {
+            for cut in [0usize, 1, 2] {
+                tasks.push((sh, n, cut));
+            }
+        }
+    }
+    if let Some((sh, n, cut)) = only {
+        tasks = tasks.into_iter().filter(|t| t.0 == sh && t.1 == n && t.2 == cut).collect();
+    }
+    let n_tasks = tasks.len() as u64;
+    let cfg = TokCfg { cdata: true, ..Default::default() };
+    tasks.par_iter().for_each(|&(sh, n, cut)| {
+        let input = crate::c04::scale_input(sh, n);
+        // cut 0: one piece; 1: cut in the middle; 2: cut one character before the end
+        let chars: Vec<char> = input.chars().collect();
+        let k = match cut {
+            0 => 0,
+            1 => chars.len() / 2,
+            _ => chars.len().saturating_sub(1),
+        };
+        let sched: Vec<Feed> = if k == 0 { vec![Feed::Chunk(input.clone())] } else { vec![Feed::Chunk(chars[..k].iter().collect()), Feed::Chunk(chars[k..].iter().collect())] };
+        stats.execs.fetch_add(1, Ordering::Relaxed);
+        let w = format!("long-run shape={sh} n={n} cut={cut}");
+        let real = match guarded(|| run_real(&cfg, &sched, &[], true, false)) {
+            Ok(r) => r,
+            Err(p) => {
+                if mode.tokens {
+                    ctx.violation("panic", &w, json!({"panic": p}));
+                }
+                return;
+            },
+        };
+        let r = run_ref(&cfg, &input);
+        if let Some((kind, msg)) = compare(&real, &r, mode.lines) {
+            let is_line = kind == "line";
+            if (is_line && mode.lines) || (!is_line && mode.tokens) {
+                ctx.violation(&kind, &w, json!({"message": msg.chars().take(600).collect::<String>()}));
+            }
+        }
+    });
+    n_tasks
+}
+
 pub fn main(ctx: &Ctx, lines: bool) -> ! {
     let mode = Mode { tokens: !lines, lines };
     let lex = lexemes();
@@ -430,6 +479,7 @@ pub fn main(ctx: &Ctx, lines: bool) -> ! {
         }));
     }
     let simd = simd_windows(ctx, &mode, &stats, ctx.tier.pick(34, 50));
+    let long = long_runs(ctx, &mode, &stats, None);
     let forwarding = if mode.lines { crate::c03::line_forwarding(ctx) } else { (0, 0) };
     ctx.assume(&format!("lexeme alphabet of {} symbols: one representative per character class any spec state distinguishes, plus multi-character lexemes (case-insensitive keywords in both cases, the case-sensitive [CDATA[ also in wrong case, entity names, 16 x's to enter the SIMD stride); characters outside these classes are assumed to behave like their class representative", lex.len()));
     ctx.assume("state key = abstract implementation dump (token buffers reduced to min(len,2) + the predicates the code tests) x R-tok control state; every transition is validated with two closers (EOF, and \"'>-->]]> which flushes every token buffer) so merged states have verified contents");
@@ -454,6 +504,7 @@ pub fn main(ctx: &Ctx, lines: bool) -> ! {
             "continuations": cont_total,
             "ascii_sweep_runs": ascii_total,
             "simd_window_strings": simd,
+            "long_run_cases": long,
             "line_forwarding_runs": forwarding.0,
             "line_forwarding_sink_calls_checked": forwarding.1,
             "configs": jobs,
@@ -464,6 +515,13 @@ pub fn main(ctx: &Ctx, lines: bool) -> ! {
 
 pub fn replay(ctx: &Ctx, v: &serde_json::Value, lines: bool) {
     let w = v["witness"].as_str().unwrap_or("");
+    if let Some(rest) = w.strip_prefix("long-run ") {
+        let get = |k: &str| rest.split(' ').find_map(|p| p.strip_prefix(k)).unwrap_or("").to_string();
+        let stats = Stats { execs: AtomicU64::new(0), outcomes: Mutex::new(BTreeSet::new()) };
+        let n = long_runs(ctx, &Mode { tokens: !lines, lines }, &stats, Some((&get("shape="), get("n=").parse().unwrap_or(0), get("cut=").parse().unwrap_or(0))));
+        println!("replay: {} case(s) re-run, {}", n, if ctx.violations() == 0 { "passes" } else { "FAILS" });
+        return;
+    }
     let (cfg, sched) = parse_witness(w);
     let input: String = sched.iter().map(|f| if let Feed::Chunk(s) = f { s.as_str() } else { "" }).collect();
     let mode = Mode { tokens: !lines, lines };
